@@ -8,3 +8,10 @@ open Femio.C04
 #print axioms C04_bound_to_same_ids
 #print axioms C04_type_table
 #print axioms C04_misaligned_counterexample
+#print axioms C04_bound_to_same_ids_own_order
+#print axioms C04_own_order_counterexample_upstream
+#print axioms C04_lex_print_line
+#print axioms C04_roundtrip_lines
+#print axioms C04_roundtrip_chars
+#print axioms C04_roundtrip_chars_printed
+#print axioms C04_own_order_chars
